@@ -27,8 +27,14 @@
     run to that "eager ghost" run (same bytes written, every record kept in memory).
   * `load`'s slice `dat[pos:pos+len]` fails in the model when it exceeds the file's LENGTH (Go: its capacity — only
     more lenient; the path is proved unreachable).
-  * Not modelled: the WalkFunction of NewDBExt (always nil here), BR_ABORT (the constant is here, Browse ignores it;
-    walk results carrying it are outside the theorems, `WalkOK5`), membind wrappers
+  * BR_ABORT: a walk function is a list `w` of (key, result); `walkRes w k` is what it returns for k (0 for an unlisted
+    key). When some entry of `w` carries BR_ABORT the ORDER of `w` says in which order Go's map iteration presents the
+    listed keys: Browse visits the eligible listed keys (present, and browsable unless BrowseAll) up to and including the
+    first one whose result carries BR_ABORT (`visitSet`), and nothing else — the aborting record included gets its
+    browsing flags applied and is released (`freerec`) like every other visited record. Without a BR_ABORT entry every
+    eligible record is visited and the order of `w` means nothing. Every visiting order / abort point Go can produce
+    for a walk function is some `w`, and every `w` is one Go can produce.
+  * Not modelled: the WalkFunction of NewDBExt (always nil here), membind wrappers
     (`membind_use_wrapper = false` in the build), `Flush()`, the statistics counters.
 -/
 import GocoinV.Base.Bytes
@@ -38,8 +44,7 @@ abbrev Key := Nat
 
 def NO_BROWSE : Nat := 1
 def NO_CACHE : Nat := 2
-/-- a walk function's request to stop browsing; the model's Browse does NOT implement it (walk results carrying this
-    bit are excluded from the theorems' operation language, `OpOK5`; the harness checks BR_ABORT against a Go map) -/
+/-- a walk function's request to stop browsing after this record (see `visitSet`) -/
 def BR_ABORT : Nat := 4
 def YES_CACHE : Nat := 8
 def YES_BROWSE : Nat := 16
@@ -475,14 +480,42 @@ def walkRes (walk : List (Key × Nat)) (k : Key) : Nat :=
   | some (_, f) => f
   | none => 0
 
-/-- `Browse` with a walk function that returns `walkRes walk k` for key k (never BR_ABORT) -/
-def browseStep (all : Bool) (walk : List (Key × Nat)) (st : DB × List (Key × Rec) × List (Key × Bytes))
+/-- a record Browse (`all = false`) / BrowseAll (`all = true`) would hand to the walk function when it gets that far:
+    the key is in the index and — for Browse — not flagged NO_BROWSE (flags at the start of the browse: a record's
+    flags change only when it is visited itself) -/
+def eligible {α : Type} (flagsOf : α → Nat) (all : Bool) (idx : List (Key × α)) (k : Key) : Bool :=
+  match ilookup k idx with
+  | some r => all || !hasFlag (flagsOf r) NO_BROWSE
+  | none => false
+
+/-- `none`: no live entry of the walk function asks for BR_ABORT — every eligible record is visited.
+    `some l`: the keys visited before the browse stops — the eligible keys of `w`, in the order of `w`, up to and
+    including the first whose result carries BR_ABORT. An entry is dead when its key is not eligible (the walk function
+    is never asked about it) or was listed before (`walkRes` takes the first entry of a key). -/
+def visitSetAux (el : Key → Bool) : List (Key × Nat) → List Key → Option (List Key)
+  | [], _ => none
+  | (k, f) :: t, seen =>
+    if seen.contains k || !el k then visitSetAux el t seen
+    else if hasFlag f BR_ABORT then some (k :: seen) else visitSetAux el t (k :: seen)
+
+def visitSet {α : Type} (flagsOf : α → Nat) (all : Bool) (idx : List (Key × α)) (w : List (Key × Nat)) : Option (List Key) :=
+  visitSetAux (eligible flagsOf all idx) w []
+
+/-- the browse skips this record: flagged NO_BROWSE (Browse only), or the walk function has aborted before -/
+def skipB (all : Bool) (vs : Option (List Key)) (fl : Nat) (k : Key) : Bool :=
+  (!all && hasFlag fl NO_BROWSE) || (match vs with | none => false | some l => !l.contains k)
+
+/-- the callback of `Browse` / `BrowseAll` for one index record, with a walk function that returns `walkRes walk k`
+    for key k: loadrec, walk, aply_browsing_flags, freerec — for every visited record, the aborting one included
+    (Gen/QdbFacts.browseAppliesBeforeAbort); `vs` is `visitSet` of the index the browse started on -/
+def browseStep (all : Bool) (walk : List (Key × Nat)) (vs : Option (List Key))
+    (st : DB × List (Key × Rec) × List (Key × Bytes))
     (kr : Key × Rec) : DB × List (Key × Rec) × List (Key × Bytes) :=
   let (db, acc, out) := st
   match db.failed with
   | some _ => st
   | none =>
-    if !all && hasFlag kr.2.flags NO_BROWSE then (db, acc ++ [kr], out)
+    if skipB all vs kr.2.flags kr.1 then (db, acc ++ [kr], out)
     else match loadrec db.fs kr.2 with
       | none => (fail db "exit", acc ++ [kr], out)
       | some r =>
@@ -492,7 +525,7 @@ def browseStep (all : Bool) (walk : List (Key × Nat)) (st : DB × List (Key × 
 
 def browseGen (all : Bool) (db : DB) (walk : List (Key × Nat)) : DB × List (Key × Bytes) :=
   if db.failed.isSome then (db, []) else
-  let (db', idx, out) := db.index.foldl (browseStep all walk) (db, [], [])
+  let (db', idx, out) := db.index.foldl (browseStep all walk (visitSet Rec.flags all db.index walk)) (db, [], [])
   match db'.failed with
   | some _ => (db', out)
   | none => ({ db' with index := idx }, out)
